@@ -95,7 +95,18 @@ func frontExec(b *spec.Built, n *spec.Node, rec any, front string, prefill any, 
 			}
 			r.Header.Set("Content-Type", "application/x-www-form-urlencoded")
 		} else {
-			r, _ = http.NewRequest("GET", "/x?"+vals.Encode(), nil)
+			// query parameters are what GET and HEAD read, whatever headers the client sends along
+			enc := vals.Encode()
+			switch len(enc) % 3 {
+			case 1:
+				r, _ = http.NewRequest("HEAD", "/x?"+enc, nil)
+				r.Header.Set("Content-Type", "application/json")
+			case 2:
+				r, _ = http.NewRequest("HEAD", "/x?"+enc, nil)
+				r.Header.Set("Content-Type", "application/x-www-form-urlencoded")
+			default:
+				r, _ = http.NewRequest("GET", "/x?"+enc, nil)
+			}
 		}
 		env := &ref.Env{Mode: ref.Parse, SourceTag: tag, Flat: true, FlatLookup: urlLookup(vals)}
 		return run.Parse(b, zhttp.Request(r), prefill), env, nil
